@@ -172,6 +172,11 @@ func (rm *ResponseManager) abortRequest(ctx context.Context, requestID graphsync
 			return nil
 		})
 	}
+	if err == queryexecutor.ErrNetworkError {
+		// remembered for finishTask: the executor may already be past its last
+		// check for signals, or the signal slot may be taken
+		response.networkError = true
+	}
 	select {
 	case response.signals.ErrSignal <- err:
 	default:
@@ -379,6 +384,12 @@ func (rm *ResponseManager) finishTask(task *peertask.Task, p peer.ID, err error)
 	response, ok := rm.inProgressResponses[requestID]
 	if !ok {
 		return
+	}
+	if response.networkError && !ipldutil.IsContextCancelErr(err) {
+		// the response stream was closed by a network error while the task was
+		// running: whatever the executor queued last (pause, final status) was
+		// dropped, so no message notification will ever terminate this response
+		err = queryexecutor.ErrNetworkError
 	}
 	if _, ok := err.(hooks.ErrPaused); ok {
 		response.state = graphsync.Paused
